@@ -449,13 +449,14 @@ type semCfg struct {
 	RoundTrip bool // encode + decode the bytecode before running
 	Again     int  // additional encode + decode rounds
 	Twice     bool // run twice on the same VM, observe the second run
+	VM2       bool // run on one VM, then observe a run of a second VM on the same Bytecode
 }
 
 func semConfigs(names []string) []semCfg {
 	var out []semCfg
 	for _, full := range names {
 		n := full
-		rt, twice := false, false
+		rt, twice, vm2 := false, false, false
 		again := 0
 		for strings.Contains(n, "+") {
 			i := strings.LastIndex(n, "+")
@@ -467,6 +468,8 @@ func semConfigs(names []string) []semCfg {
 				rt = true
 			case "twice":
 				twice = true
+			case "vm2":
+				vm2 = true
 			}
 			n = n[:i]
 		}
@@ -483,6 +486,7 @@ func semConfigs(names []string) []semCfg {
 		}
 		for ; k < len(out); k++ {
 			out[k].Name, out[k].RoundTrip, out[k].Twice, out[k].Again = full, rt, twice, again
+			out[k].VM2 = vm2
 		}
 	}
 	return out
@@ -497,6 +501,20 @@ func moduleMapOf(p semProg) *ugo.ModuleMap {
 		}
 		sort.Strings(ks)
 		for _, k := range ks {
+			if k == "bm" {
+				// the builtin (Go) module: its body is "return <map literal>", the literal's value becomes the module's attributes
+				bc, err := ugo.Compile([]byte(semBlock(seqOf(m[k]), "")), ugo.CompilerOptions{})
+				if err != nil {
+					panic(fmt.Sprint("builtin module literal: ", err))
+				}
+				v, err := ugo.NewVM(bc).Run(nil)
+				attrs, ok := v.(ugo.Map)
+				if err != nil || !ok {
+					panic(fmt.Sprint("builtin module literal: ", v, err))
+				}
+				mm.AddBuiltinModule(k, attrs)
+				continue
+			}
 			// the reference semantics logs "load:<name>" when a module body starts executing
 			src := fmt.Sprintf("global log\nlog = append(log, %q)\nL := func(v) { log = append(log, v) }\n", "load:"+k) + semBlock(seqOf(m[k]), "")
 			mm.AddSourceModule(k, []byte(src))
@@ -562,6 +580,11 @@ func semRun(p semProg, cf semCfg, src string) (obs string, compileErr error, pan
 		vm.Clear()
 		g = mkGlobals()
 		ret, rerr = vm.Run(g, args...)
+	}
+	if cf.VM2 {
+		// another VM on the same Bytecode: nothing the first run did is visible to it
+		g = mkGlobals()
+		ret, rerr = ugo.NewVM(bc).Run(g, args...)
 	}
 	var o []any
 	if rerr != nil {
